@@ -1,8 +1,8 @@
 package srvworld
 
 import (
-	"strings"
 	"fmt"
+	"strings"
 	"testing"
 
 	"github.com/pion/turn/v5/internal/zzverif/vkit"
